@@ -8,7 +8,7 @@ CONSTANTS Patterns,   \* set of sequences of items; one is chosen initially
           FoldFixed   \* FALSE = the fold that only replaces on equal seq and greater value (deviation #9)
 VARIABLES items, pending, best, arrived
 
-NoneItem == <<-1, -1>>
+NoneItem == <<0, 0>>   \* values are 1..3 (0 never occurs), seq is any integer - negative ones included
 Fold(b, it) == IF b = NoneItem THEN it
                ELSE IF FoldFixed
                     THEN IF it[1] > b[1] \/ (it[1] = b[1] /\ it[2] > b[2]) THEN it ELSE b
